@@ -215,6 +215,7 @@ const OPS: [&str; 4] = ["add", "sub", "mul", "div"];
 const KINDS: [&str; 3] = ["mul_add", "mul_sub", "sub_product"];
 
 pub fn c13<T: Px>(thorough: bool) -> Vec<CellDef> {
+    refs::fdec_selftest(); // the fast decode used by the sqrt acceptance test agrees with the reference decode
     let mut v = vec![];
     let (n, es) = (T::N, T::ES);
     for op in 0..4u8 {
@@ -326,11 +327,23 @@ pub fn c13<T: Px>(thorough: bool) -> Vec<CellDef> {
         }
     }
     if T::fb(0).sqrt().is_some() {
-        for (sfx, sp) in unary_sp_lim::<T>(thorough, 32) {
+        // complete for every width in both tiers (the squaring acceptance test makes 2^32 inputs affordable);
+        // only the C16 quick pass (VERIF_LIGHT) uses the lattice
+        for (sfx, sp) in unary_sp_lim::<T>(thorough || !crate::fixed::light(), 32) {
             v.push(CellDef::new("C13", format!("{}/sqrt{}", T::name(), sfx), sp, move |k| {
                 let a = k as u32;
+                let got = guard(|| T::fb(a).sqrt().unwrap().tbr() as u128);
+                // fast path: the returned root is proved correct by squaring its two rounding boundaries
+                if let Some(g) = got {
+                    let low = (g as u32) & ((1u32 << sh::<T>()).wrapping_sub(1));
+                    if low == 0 || sh::<T>() == 0 {
+                        if let Some(nt) = refs::sqrt_verify(n, es, a, (g as u32) >> sh::<T>()) {
+                            return Out { ok: true, nt, got: g, want: g, ops: 1, panicked: false };
+                        }
+                    }
+                }
                 let (want, nt) = refs::sqrt(n, es, a);
-                Out::cmp(guard(|| T::fb(a).sqrt().unwrap().tbr() as u128), (want as u128) << sh::<T>(), nt)
+                Out::cmp(got, (want as u128) << sh::<T>(), nt)
             }));
         }
     }
